@@ -312,6 +312,13 @@ var c07AddDelete = []addGen{
 	{"delete-ns", "DELETE", pth("ns"), val.NS("2")},
 	{"delete-bs", "DELETE", pth("bs"), val.BS("a")},
 	{"delete-all", "DELETE", pth("ss"), val.SS("a", "b", "c")},
+	// the LAST members of a set, of every set type, by exactly its members and by a superset: a set cannot be empty,
+	// the attribute goes away
+	{"delete-all-ns", "DELETE", pth("ns"), val.NS("1", "2", "3")},
+	{"delete-all-ns-other-notation", "DELETE", pth("ns"), val.NS("1.0", "2e0", "3", "9")},
+	{"delete-all-bs", "DELETE", pth("bs"), val.BS("a", "b")},
+	{"delete-all-bs-superset", "DELETE", pth("bs"), val.BS("b", "zz", "a")},
+	{"delete-all-ss-superset", "DELETE", pth("ss"), val.SS("c", "b", "a", "zz")},
 	{"delete-absent", "DELETE", pth("noset"), val.SS("a")},
 	{"delete-wrong-type", "DELETE", pth("ss"), val.NS("1")},
 	{"delete-from-string", "DELETE", pth("s"), val.SS("a")},
